@@ -220,10 +220,29 @@ def r2(ctx, rep):
     COL = 'pytableaux.lang.collect'
     admitted = [ClassRef(COL, 'Predicates'), ClassRef(COL, 'Predicates.Frozen')]
     init = m.func(PAR, 'Parser.__init__')
-    ok = 'if not isinstance(predicates, PredicatesBase)' in astq.u(init) and 'predicates = Predicates(predicates)' in astq.u(init)
+    rep.consult(m.loc(PAR, init) + ' Parser.__init__')
+    # the gate folded: whatever the constructor is given, the store the parser keeps is a PredicatesBase (so `admitted` is complete)
+    from ..minieval import Interp as _Ig, Obj as _Og
+
+    class PBase:
+        pass
+
+    class PredsM(PBase):
+        def __init__(self, *a):
+            self.given = a
+    given = PredsM()
+    itg = _Ig(dict(Predicates=PredsM, PredicatesBase=PBase, ParseTable=_Og('ParseTable', fetch=lambda *a: 'TABLE'), check=_Og('check', inst=lambda o, t: o),
+                   for_defaults=lambda d, o: dict(d)), where='lang/parsing.py Parser.__init__')
+    kept = []
+    for arg in (None, given, ('P1', 'P2'), []):
+        ps = _Og('parser', notation='N', defaults={})
+        r = itg.safe(init, [ps], dict(predicates=arg))
+        kept.append(getattr(ps, 'predicates', r))
+    ok = all(isinstance(k, PBase) for k in kept) and kept[1] is given
     rep.instance(R2, ok=ok, nontrivial='gate')
     if not ok:
-        raise AnalysisError('Parser.__init__: the isinstance(PredicatesBase) gate was not recognised')
+        rep.finding(R2, 'C13.R2/Parser.__init__/gate', m.loc(PAR, init), 'Parser.__init__',
+                    f'given None / a store / a tuple / a list the parser keeps {kept!r}: not always a predicate store (PredicatesBase); the given store must be kept as it is')
     known_external = {'get': None}
     n = 0
     for qn, fn in parser_functions(m):
@@ -359,8 +378,4 @@ def r5(ctx, rep):
                     if not ok:
                         rep.finding(R5, f'C13.R5/{qn}/{astq.u(f)}', m.loc(PAR, c), qn, f'`{astq.u(c)[:50]}` mutates parser state other than the predicate store')
     rep.floor('C13.R5', 'stores / mutating calls', n, 6)
-    dc = m.func(PAR, 'DefaultParser.__call__')
-    ok = 'with ParseContext(input, self.table, self.predicates) as context' in astq.u(dc)
-    rep.instance(R5, ok=ok, nontrivial='fresh-context')
-    if not ok:
-        rep.finding(R5, 'C13.R5/DefaultParser.__call__', m.loc(PAR, dc), 'DefaultParser.__call__', 'does not parse inside a fresh ParseContext')
+    # (a parse runs in a fresh context: decided by R6's history pass -- one parser instance re-used over the whole corpus)
